@@ -9,9 +9,9 @@
   real compiler is checked by the correspondence harness.
 
   Hash literals: the Go parser stores the pairs in a map and the compiler sorts
-  the keys by `String()`.  `normalize` performs that sort once, up front (stable
-  over source order, which is one of the orders Go may produce when two keys have
-  the same text - see known finding KF-26), so that compilation is structural.
+  the keys by `String()`, and by the `String()` of the value when a key is
+  repeated (the repair of KF-26).  `normalize` performs that sort once, up front,
+  so that compilation is structural.
 -/
 import EvalFilter.Model.Ast
 import EvalFilter.Model.Code
@@ -20,11 +20,14 @@ import EvalFilter.Model.Value
 namespace EvalFilter
 
 /-! ### normalisation: sort hash-literal pairs by the text of their keys -/
+/-- the compiler's order on the pairs of a hash literal: key text, then value text -/
+def pairLt {α : Type} (a b : Str × Str × α) : Bool :=
+  Str.lt a.1 b.1 || (a.1 == b.1 && Str.lt a.2.1 b.2.1)
 mutual
   def normExpr : Expr → Expr
     | .arrayLit els => .arrayLit (normExprs els)
     | .hashLit pairs =>
-        .hashLit (((normPairs pairs).mergeSort (fun a b => !(Str.lt b.1 a.1))).map (·.2))
+        .hashLit (((normPairs pairs).mergeSort (fun a b => !(pairLt b a))).map (·.2.2))
     | .prefix op r => .prefix op (normExpr r)
     | .infix op l r => .infix op (normExpr l) (normExpr r)
     | .ternary c t f => .ternary (normExpr c) (normExpr t) (normExpr f)
@@ -41,9 +44,9 @@ mutual
   def normExprs : List Expr → List Expr
     | [] => []
     | e :: es => normExpr e :: normExprs es
-  def normPairs : List Pair → List (Str × Pair)
+  def normPairs : List Pair → List (Str × Str × Pair)
     | [] => []
-    | .mk k v :: ps => (k.str, .mk (normExpr k) (normExpr v)) :: normPairs ps
+    | .mk k v :: ps => (k.str, v.str, .mk (normExpr k) (normExpr v)) :: normPairs ps
   def normStmt : Stmt → Stmt
     | .expr e => .expr (normExpr e)
     | .ret e => .ret (normExpr e)
